@@ -25,8 +25,10 @@ pub enum Mutation {
     Extend(Vec<u8>),
     FlipBit(u16),
     SetByte(u16, u8),
-    /// overwrite 8 bytes at the position with a huge little-endian length
-    HugeLength(u16),
+    /// overwrite 8 bytes at the position with a large little-endian length: `.1` selects
+    /// 2^63-16 / 2^40 / 2^31 / 2^27 / 2^64-1 (lengths that overflow, cannot be allocated, can be
+    /// allocated but dwarf the input)
+    HugeLength(u16, u8),
 }
 #[derive(Debug, Clone, PartialEq, Eq, Hash, Serialize, Deserialize)]
 pub enum Target {
@@ -88,10 +90,11 @@ fn mutate(valid: Vec<u8>, m: &Mutation) -> Vec<u8> {
                 b[i] = *v;
             }
         }
-        Mutation::HugeLength(p) => {
+        Mutation::HugeLength(p, kind) => {
             if b.len() >= 8 {
                 let i = *p as usize % (b.len() - 7);
-                b[i..i + 8].copy_from_slice(&0x7fff_ffff_ffff_fff0u64.to_le_bytes());
+                let v = [0x7fff_ffff_ffff_fff0u64, 1 << 40, 1 << 31, 1 << 27, u64::MAX][*kind as usize % 5];
+                b[i..i + 8].copy_from_slice(&v.to_le_bytes());
             }
         }
     }
@@ -166,9 +169,10 @@ pub fn run_fault_case(c: &FaultCase) -> Result<FaultInfo, String> {
             let is_mutated_valid = !matches!(f.mutation, Mutation::Random(_) | Mutation::Intact);
             match &f.target {
                 Target::Event => {
-                    let valid = encode_event(c.json, &match i % 3 {
+                    let valid = encode_event(c.json, &match i % 4 {
                         0 => Event::Start { uni: uni_a.id, prog: 0 },
                         1 => Event::Noop,
+                        2 => Event::Text("héllo, wörld - a string field".into()),
                         _ => Event::Tag { tag: 7, from: vec![1, 2, 3], val: 9 },
                     });
                     let bytes = mutate(valid, &f.mutation);
@@ -210,6 +214,12 @@ pub fn run_fault_case(c: &FaultCase) -> Result<FaultInfo, String> {
                                 // the bridge has consumed the entry: this one request is lost
                                 t.drop_request(&path);
                                 open.remove(&path);
+                                // ... and forgotten: its id is free again
+                                if let (Some(id), Some(reg)) = (a.id_of(&path), a.registry()) {
+                                    if reg.iter().any(|(i, _)| *i == id) && a.owner_of(id) == Some(&path) {
+                                        return Err(format!("[registry] the bridge still holds id {id} after rejecting the (only possible) answer to that one-shot request"));
+                                    }
+                                }
                             }
                         }
                         Some(oa) => {
